@@ -6,13 +6,18 @@ The likelihood is a separable quadratic bowl over the *paths* of the composition
 `terms` = [(path tuple, c, t)] comes from the harness (harness/vcheck/c05.py: `terms_of`), which
 evaluates the same formula itself from the sample's own kwargs (independent of autofit).
 """
+import time
+
 import numpy as np
 import autofit as af
 
 
 class SpecAnalysis(af.Analysis):
-    def __init__(self, terms, reject=None):
+    def __init__(self, terms, reject=None, slow=None):
         self.terms = [(tuple(p), float(c), float(t)) for p, c, t in terms]
+        # optional (path, threshold, seconds): evaluations with value < threshold take longer, so that
+        # parallel evaluations complete out of submission order
+        self.slow = None if slow is None else (tuple(slow[0]), float(slow[1]), float(slow[2]))
         # optional region in which the fit is impossible: (path, lo, hi) -> FitException
         self.reject = None if reject is None else (tuple(reject[0]), float(reject[1]), float(reject[2]))
 
@@ -23,6 +28,12 @@ class SpecAnalysis(af.Analysis):
                 obj = getattr(obj, name)
             if self.reject[1] <= obj < self.reject[2]:
                 raise af.exc.FitException("rejected region")
+        if self.slow is not None:
+            obj = instance
+            for name in self.slow[0]:
+                obj = getattr(obj, name)
+            if obj < self.slow[1]:
+                time.sleep(self.slow[2])
         total = 0.0
         for path, c, t in self.terms:
             obj = instance
